@@ -620,7 +620,7 @@ class Impl:
             budget['active'] = False
             outcome = 'outOfFuel'
         except Exception as e:  # noqa
-            outcome = {'err': {'id': objs.setdefault(id(e), len(objs) + 1000), 'name': common.exc_name(e),
+            outcome = {'err': {'id': objs.setdefault(id(e), len(objs) + 1000), 'name': canonical_error_name(e),
                                'msg': str(e)}}
             self._keep = e
         finally:
@@ -687,6 +687,14 @@ def model_run(driver, prog, fuel=3000):
     obs = driver.ask('flow.run', pipes=req['pipes'], run=req['run'], rnd=req.get('rnd', []), fuel=fuel)
     obs['sleeps'] = [as_float(num(x)) for x in obs['sleeps']]
     return renumber(obs)
+
+
+def canonical_error_name(e):
+    """The canonical name of an error as the property texts give it (C06/C07): the bare class name for classes of
+    module `builtins` / `__main__`, else `modulename.ClassName` - computed here from the class itself, NOT through
+    the pypyr.errors.get_error_name of the tree under test."""
+    t = type(e)
+    return t.__name__ if t.__module__ in ('__main__', 'builtins') else f'{t.__module__}.{t.__name__}'
 
 
 def compare(model, impl):
